@@ -474,6 +474,23 @@ ENSURES(RESULT == (float)h->count / (float)H_EFFN(h))
 /* ------------------------------------------------------------------ the code */
 #include "hash.c"
 
+#ifdef VF_G_swap
+/* C03: swap exchanges the two table objects completely (bucket array, both geometries, sweep
+ * position, clean stamp, element count, element offset); nothing else is written, so every element
+ * stays in the chain it was in and both tables keep their invariants.  Any field values. */
+#define H_FIELDS_SWAPPED(x, y) ((x)->bucket.at == OLD((y)->bucket.at) && (x)->bucket.count == OLD((y)->bucket.count) &&            \
+        (x)->bucket.capacity == OLD((y)->bucket.capacity) && (x)->bucket.hash == OLD((y)->bucket.hash) &&                           \
+        H_BYTE((x)->bucket.cst) == OLD(H_BYTE((y)->bucket.cst)) && (x)->bucket.rh.hash == OLD((y)->bucket.rh.hash) &&                \
+        (x)->bucket.rh.count == OLD((y)->bucket.rh.count) && (x)->bucket.rh.clean == OLD((y)->bucket.rh.clean) &&                   \
+        (x)->count == OLD((y)->count) && (x)->off == OLD((y)->off))
+static inline void cstl_hash_swap(struct cstl_hash * const a, struct cstl_hash * const b)
+REQUIRES(FRESH(a, sizeof(*a)) && FRESH(b, sizeof(*b)))
+ASSIGNS(*a, *b)
+ENSURES(H_FIELDS_SWAPPED(a, b) && H_FIELDS_SWAPPED(b, a))
+;
+void h_swap(void) { struct cstl_hash * a, * b; cstl_hash_swap(a, b); VF_END(); }
+#endif
+
 #ifdef VF_G_find_visit
 /* C03, element level, one step of a lookup: an element of the chain is offered to the caller's visit
  * function exactly when its key matches (once, with the caller's private pointer); it becomes the
